@@ -200,12 +200,36 @@ class Interp:
         return np.stack(xs, axis=e.params["axis"])
 
     def p_pad(self, e, x, pv):
+        """lax.pad: interior padding first (i fill elements between neighbours), then low / high edge padding; negative edge padding crops"""
         cfg = e.params["padding_config"]
-        assert all(i == 0 and lo >= 0 and hi >= 0 for lo, hi, i in cfg)
-        shape = [lo + n + hi for n, (lo, hi, _) in zip(x.shape, cfg)]
-        out = full(shape, pv[()])
-        out[tuple(slice(lo, lo + n) for n, (lo, hi, _) in zip(x.shape, cfg))] = x
-        return out
+        cur = x
+        for ax, (lo, hi, i) in enumerate(cfg):
+            n = cur.shape[ax]
+            if i > 0:
+                m = n + max(n - 1, 0) * i
+                shp = list(cur.shape)
+                shp[ax] = m
+                spread = full(shp, pv[()])
+                idx = [slice(None)] * cur.ndim
+                idx[ax] = slice(0, m, i + 1)
+                spread[tuple(idx)] = cur
+                cur = spread
+            n = cur.shape[ax]
+            # negative low / high padding removes elements
+            a, b = max(-lo, 0), n - max(-hi, 0)
+            idx = [slice(None)] * cur.ndim
+            idx[ax] = slice(a, max(b, a))
+            cur = cur[tuple(idx)]
+            plo, phi = max(lo, 0), max(hi, 0)
+            if plo or phi:
+                shp = list(cur.shape)
+                shp[ax] = plo + cur.shape[ax] + phi
+                out = full(shp, pv[()])
+                idx = [slice(None)] * cur.ndim
+                idx[ax] = slice(plo, plo + cur.shape[ax])
+                out[tuple(idx)] = cur
+                cur = out
+        return cur.copy()
 
     def p_tile(self, e, x):
         return np.tile(x, tuple(e.params["reps"]))
